@@ -117,7 +117,20 @@ def c20_group(d):
 
 
 PROPS["C20"] = {
-    "theorems": [],
+    "theorems": [
+        "Lace.C20.editor_no_panic",
+        "Lace.C20.cursor_in_bounds",
+        "Lace.C20.submit_eq_reference",
+        "Lace.C20.commands_eq_split",
+        "Lace.C20.key_step",
+        "Lace.C20.session_inv",
+        "Lace.C20.submitted_not_blank",
+        "Lace.Editor.handleKey_sim",
+        "Lace.Editor.findWordNext_eq",
+        "Lace.Editor.findWordBack_eq",
+        "Lace.Editor.insertCharIndex_eq",
+        "Lace.Editor.removeCharIndex_eq",
+    ],
     "compare": cmp_default,
     "classify": c20_classify,
     "nontrivial": c20_nontrivial,
